@@ -88,7 +88,7 @@ def build_grid(desc, table=None):
     if desc["rule_spelling"] == "grid":
         kw = {"boundary": dict(desc["rule"]), "fill_value": dict(desc["fill"])}
     t_listed = linktable.listed_in_order(t, desc["shuffle_seed"]) if desc["shuffle_seed"] % 2 else t
-    g = Grid(ds, coords=cm, face_connections={"face": t_listed}, periodic=False, autoparse_metadata=False, **kw)
+    g = Grid(ds, coords=cm, face_connections={"face": linktable.spelled(t_listed, desc["shuffle_seed"] // 2)}, periodic=False, autoparse_metadata=False, **kw)
     return ds, g, cm, t
 
 
